@@ -2758,3 +2758,35 @@ mod tests {
         }
     }
 }
+
+/// Verification hooks: thin wrappers around internal kernels (feature `verif` only).
+#[cfg(feature = "verif")]
+pub mod verif_hooks_line {
+    use super::*;
+
+    /// A line program with the given encodings and no directories or files,
+    /// for exercising row generation only.
+    pub fn bare_program(encoding: Encoding, line_encoding: LineEncoding) -> LineProgram {
+        let mut program = LineProgram::none();
+        program.none = false;
+        program.encoding = encoding;
+        program.line_encoding = line_encoding;
+        program.prev_row = LineRow::initial_state(encoding, line_encoding);
+        program.row = LineRow::initial_state(encoding, line_encoding);
+        program
+    }
+
+    /// The number of instructions generated so far.
+    pub fn instruction_count(program: &LineProgram) -> usize {
+        program.instructions.len()
+    }
+
+    /// Write the `index`th generated instruction (no header).
+    pub fn instruction_write<W: Writer>(
+        program: &LineProgram,
+        index: usize,
+        w: &mut DebugLine<W>,
+    ) -> Result<()> {
+        program.instructions[index].write(w, program.encoding)
+    }
+}
